@@ -828,6 +828,18 @@ package geom
 //@   loop 1 `for _, pp := range l`
 //@     invariant [none_out] 0 <= #1 && #1 <= len(l) && (typeof(p) == Polygon ==> !anyOutP(l, p.(Polygon), #1)) && (typeof(p) == MultiPolygon ==> !anyOutM(l, p.(MultiPolygon), #1))
 
+//@ func (ml MultiLineString) Within
+//@   prop C02
+//@   mode xreal
+//@   requires [nonnil] p != nil
+//@   requires [recv] typeof(p) == *Bounds ==> p.(*Bounds) != nil
+//@   ensures [status] result == Outside || result == Inside
+//@   ensures [polygon] typeof(p) == Polygon ==> (result == Outside <==> (exists a int :: 0 <= a && a < len(ml) && anyOutP(ml[a], p.(Polygon), len(ml[a]))))
+//@   ensures [multi] typeof(p) == MultiPolygon ==> (result == Outside <==> (exists a int :: 0 <= a && a < len(ml) && anyOutM(ml[a], p.(MultiPolygon), len(ml[a]))))
+//@   modifies nothing
+//@   loop 1 `for _, l := range ml`
+//@     invariant [none_out] 0 <= #1 && #1 <= len(ml) && (typeof(p) == Polygon ==> (forall a int :: 0 <= a && a < #1 ==> !anyOutP(ml[a], p.(Polygon), len(ml[a])))) && (typeof(p) == MultiPolygon ==> (forall a int :: 0 <= a && a < #1 ==> !anyOutM(ml[a], p.(MultiPolygon), len(ml[a]))))
+
 //@ -- ------------------------------------------------------------ C03: measures
 //@ spec shTerm(a Point, b Point) float64 = (a.X + b.X) * (b.Y - a.Y)
 //@ spec shTo(r []Point, k int) float64 decreases k = k <= 0 ? 0 : shTo(r, k-1) + shTerm(r[k-1], r[k])
